@@ -1,7 +1,7 @@
 (* C01 — decoding of tree snapshots / values / ops, evaluation with the model, canonical printing. *)
 From Coq Require Import ZArith List String Bool.
 Import ListNotations.
-From TD Require Import Lib.Sexp Model.C01_Tree Model.C01_Ops.
+From TD Require Import Lib.Sexp Model.C01_Tree Model.C01_Ops Model.C01_Scope.
 Open Scope string_scope.
 Open Scope list_scope.
 
@@ -109,7 +109,7 @@ Definition dispatch (cmd : string) (args : list sexp) : option sexp :=
       | Some t, Some o =>
           let r := step t o in
           Some (SL [enc_tree (fst r); enc_outcome (snd r); enc_bool (coherentb t); enc_bool (coherentb (fst r));
-                    enc_bool (in_scopeb t o); enc_bool (hollow_free t)])
+                    enc_bool (in_scopeb t o); enc_bool (cleanb t o)])
       | _, _ => None
       end
   | "coh", [t] => match dec_tree t with Some t => Some (enc_bool (coherentb t)) | None => None end
